@@ -60,6 +60,11 @@ def run(ctx):
               lambda P_: wire(P_, W, r'TreeKemPrivate::update_secrets$', 2, r'decrypt_group_info_internal\(.*\)\.0\.signer$'), floor=1)
     ctx.check('WIRE', 'joiner: path secret is the one from its GroupSecrets',
               lambda P_: wire(P_, W, r'TreeKemPrivate::update_secrets$', 3, r'decrypt_group_info_internal\(.*\)\.2\.path_secret$'), floor=1)
+    from .C09 import generator_condition
+    ctx.check('SIBLING', 'joiner and committer advance the path-secret generator under the same condition (joiner)',
+              generator_condition('TreeKemPrivate::update_secrets'), floor=1)
+    ctx.check('SIBLING', 'joiner and committer advance the path-secret generator under the same condition (committer)',
+              generator_condition('TreeKem::encap'), floor=1)
     # key package lifecycle
     ctx.check('KEY-PACKAGE-LIFECYCLE', 'used reference handed to join_with',
               lambda P_: wire(P_, W, r'Group::join_with$', 6, r'^bool::then_some\(.*decrypt_group_info_internal\(.*\)\.1\.reference\)$'), floor=1)
